@@ -15,7 +15,7 @@ use dsl_macro_derive::Recurse;
 ///
 /// FileId is normally useful in the context of source positions
 /// where a source position is in a file.
-#[derive(Clone, Debug, Eq, Hash, PartialEq, Default)]
+#[derive(Clone, Debug, Eq, Hash, PartialEq, Default, PartialOrd, Ord)]
 pub struct FileId(String);
 
 impl FileId {
